@@ -113,10 +113,36 @@ type Scenario struct {
 }
 
 func (s *Scenario) Ms(t int64) int64             { return t * s.TickMs }
-func (s *Scenario) Time(t int64) time.Time       { return time.UnixMilli(t * s.TickMs) }
+func (s *Scenario) Time(t int64) time.Time       { return time.UnixMilli(s.Abs(t)) }
 func (s *Scenario) Dur(t int64) time.Duration    { return time.Duration(t*s.TickMs) * time.Millisecond }
 func (s *Scenario) IsInstant() bool              { return s.Step == 0 }
 func (s *Scenario) CfgInt(k string, def int) int { return cfgInt(s.Cfg, k, def) }
+
+// BaseMs0 is a present-day time (2023-11-14T22:13:30Z), a multiple of every tick length in use.
+const BaseMs0 = 1_700_000_010_000
+
+// Base is the time of tick 0 in milliseconds since the epoch: 0 for three scenarios in four and for scenarios given as
+// text (their @ literals are absolute), a present-day time for every fourth plan-based scenario (a pure function of
+// its id) - its data, its window and its @ literals are all moved there.
+func (s *Scenario) Base() int64 {
+	if v, ok := s.Cfg["base"]; ok {
+		if f, ok := v.(float64); ok {
+			return int64(f)
+		}
+	}
+	if s.Q != "" || len(s.Plan) == 0 {
+		return 0
+	}
+	h := fnv.New32a()
+	h.Write([]byte(s.ID))
+	if (h.Sum32()>>15)%4 == 0 {
+		return BaseMs0
+	}
+	return 0
+}
+
+// Abs is the absolute time of tick t in milliseconds.
+func (s *Scenario) Abs(t int64) int64 { return s.Base() + t*s.TickMs }
 
 // Procs is the GOMAXPROCS setting of a scenario: the one it asks for, else 1, 2, 3, 4 or 8 (1, 1, 1, 2
 // or 4 shards per selector) as a pure function of its id.
@@ -200,8 +226,7 @@ func (s *Scenario) selText(n Node) string {
 	}
 	switch n.Atk {
 	case "lit":
-		ms := s.Ms(n.At)
-		out += fmt.Sprintf(" @ %d.%03d", ms/1000, ms%1000)
+		out += fmt.Sprintf(" @ %.3f", float64(s.Abs(n.At))/1000)
 	case "start":
 		out += " @ start()"
 	case "end":
@@ -392,10 +417,10 @@ func (c *conv) sel(n *Node, vs *parser.VectorSelector) {
 		n.Atk = "end"
 	case vs.Timestamp != nil:
 		n.Atk = "lit"
-		if c.s.TickMs == 0 || *vs.Timestamp%c.s.TickMs != 0 {
+		if rel := *vs.Timestamp - c.s.Base(); c.s.TickMs == 0 || rel%c.s.TickMs != 0 {
 			c.ok, c.why = false, "@ not on tick grid"
 		} else {
-			n.At = *vs.Timestamp / c.s.TickMs
+			n.At = rel / c.s.TickMs
 		}
 	}
 }
